@@ -24,6 +24,12 @@ mod join;
 #[doc(hidden)]
 pub mod map;
 mod queues;
+
+/// Re-exports for the external verification harness (feature `verif`).
+#[cfg(feature = "verif")]
+pub mod verif_hooks {
+    pub use super::queues::{ToWrite, WriteQueues};
+}
 #[doc(hidden)]
 pub mod supply;
 #[cfg(test)]
